@@ -1,0 +1,221 @@
+//! Verification hooks.
+//!
+//! This module only exists when the `verif-hooks` feature is enabled. It
+//! provides process-global switch points that an external test harness
+//! uses to own thread schedules (`yield_point`), to enumerate crash points
+//! (`kill_point`) and to inject faults (`forced_run_outcome`,
+//! `fail_rtr_setup`). With the feature disabled none of this is compiled.
+#![allow(missing_docs)]
+
+use std::io::Write;
+use std::sync::{Arc, Mutex, OnceLock, RwLock};
+use std::sync::atomic::{AtomicBool, AtomicU64, Ordering};
+
+//------------ yield points ---------------------------------------------------
+
+type Callback = Arc<dyn Fn(&'static str) + Send + Sync>;
+
+static YIELD: RwLock<Option<Callback>> = RwLock::new(None);
+
+/// Installs or removes the process-global yield callback.
+pub fn set_yield_callback(cb: Option<Callback>) {
+    *YIELD.write().unwrap_or_else(|e| e.into_inner()) = cb;
+}
+
+/// Invokes the yield callback, if any, with the given label.
+pub fn yield_point(label: &'static str) {
+    let cb = YIELD.read().unwrap_or_else(|e| e.into_inner()).clone();
+    if let Some(cb) = cb {
+        cb(label)
+    }
+}
+
+//------------ kill points ----------------------------------------------------
+
+static KILL_COUNT: AtomicU64 = AtomicU64::new(0);
+
+struct KillConf {
+    at: Option<u64>,
+    trace: Option<Mutex<std::fs::File>>,
+}
+
+fn kill_conf() -> &'static KillConf {
+    static CONF: OnceLock<KillConf> = OnceLock::new();
+    CONF.get_or_init(|| {
+        KillConf {
+            at: std::env::var("ROUTINATOR_VERIF_KILL_AT").ok().and_then(|s| {
+                s.parse().ok()
+            }),
+            trace: std::env::var_os("ROUTINATOR_VERIF_KILL_TRACE").and_then(
+                |p| {
+                    std::fs::OpenOptions::new().create(true).append(true)
+                        .open(p).ok().map(Mutex::new)
+                }
+            ),
+        }
+    })
+}
+
+static KILL_ENABLED: AtomicBool = AtomicBool::new(true);
+
+/// Enables or disables kill points (they are enabled by default but only
+/// act if the environment configures them).
+pub fn set_kill_enabled(enabled: bool) {
+    KILL_ENABLED.store(enabled, Ordering::SeqCst)
+}
+
+/// Returns the number of kill points passed so far.
+pub fn kill_count() -> u64 {
+    KILL_COUNT.load(Ordering::SeqCst)
+}
+
+/// A point at which the process may be killed.
+///
+/// Points are numbered from 1. If `ROUTINATOR_VERIF_KILL_AT` equals the
+/// number of this point, the process aborts without running destructors.
+pub fn kill_point(label: &'static str) {
+    if !KILL_ENABLED.load(Ordering::SeqCst) {
+        return
+    }
+    let conf = kill_conf();
+    if conf.at.is_none() && conf.trace.is_none() {
+        return
+    }
+    let n = KILL_COUNT.fetch_add(1, Ordering::SeqCst) + 1;
+    if let Some(trace) = conf.trace.as_ref() {
+        if let Ok(mut file) = trace.lock() {
+            let _ = writeln!(file, "{} {}", n, label);
+        }
+    }
+    if conf.at == Some(n) {
+        std::process::abort()
+    }
+}
+
+//------------ forced run outcomes --------------------------------------------
+
+/// The outcome a validation run is forced to have.
+#[derive(Clone, Copy, Debug, Eq, PartialEq)]
+pub enum Outcome {
+    /// Run normally.
+    Ok,
+    /// Fail with a retryable error.
+    Retry,
+    /// Fail with a fatal error.
+    Fatal,
+}
+
+struct Outcomes {
+    seq: Vec<Outcome>,
+    /// Outcome used once the sequence is exhausted.
+    rest: Outcome,
+    /// Calls beyond this number are turned into `Fatal`.
+    bound: usize,
+    next: usize,
+}
+
+static OUTCOMES: Mutex<Option<Outcomes>> = Mutex::new(None);
+static OUTCOMES_INIT: OnceLock<()> = OnceLock::new();
+
+fn parse_outcome(s: &str) -> Option<Outcome> {
+    match s.trim() {
+        "ok" => Some(Outcome::Ok),
+        "retry" => Some(Outcome::Retry),
+        "fatal" => Some(Outcome::Fatal),
+        _ => None
+    }
+}
+
+/// Sets the sequence of forced outcomes programmatically.
+pub fn set_forced_outcomes(
+    seq: Vec<Outcome>, rest: Outcome, bound: usize
+) {
+    OUTCOMES_INIT.get_or_init(|| ());
+    *OUTCOMES.lock().unwrap_or_else(|e| e.into_inner()) = Some(
+        Outcomes { seq, rest, bound, next: 0 }
+    );
+}
+
+/// Removes any forced outcomes.
+pub fn clear_forced_outcomes() {
+    OUTCOMES_INIT.get_or_init(|| ());
+    *OUTCOMES.lock().unwrap_or_else(|e| e.into_inner()) = None;
+}
+
+/// Returns the number of validation runs started so far under forcing.
+pub fn forced_runs() -> usize {
+    OUTCOMES.lock().unwrap_or_else(|e| e.into_inner()).as_ref().map(|o| {
+        o.next
+    }).unwrap_or(0)
+}
+
+/// Returns the outcome the next validation run is to have.
+///
+/// The sequence is taken from `ROUTINATOR_VERIF_OUTCOMES`, a comma
+/// separated list of `ok`, `retry`, `fatal`; a trailing `*` on the last
+/// item repeats it for ever. `ROUTINATOR_VERIF_RUN_BOUND` (default 8) is
+/// the number of runs after which every run is forced to be fatal. Each
+/// call appends a line to the file named by `ROUTINATOR_VERIF_RUN_LOG`.
+pub fn forced_run_outcome() -> Option<Outcome> {
+    OUTCOMES_INIT.get_or_init(|| {
+        if let Ok(value) = std::env::var("ROUTINATOR_VERIF_OUTCOMES") {
+            let mut rest = Outcome::Ok;
+            let mut seq = Vec::new();
+            for item in value.split(',') {
+                if let Some(item) = item.trim().strip_suffix('*') {
+                    if let Some(item) = parse_outcome(item) {
+                        seq.push(item);
+                        rest = item;
+                    }
+                }
+                else if let Some(item) = parse_outcome(item) {
+                    seq.push(item)
+                }
+            }
+            let bound = std::env::var("ROUTINATOR_VERIF_RUN_BOUND").ok()
+                .and_then(|s| s.parse().ok()).unwrap_or(8);
+            *OUTCOMES.lock().unwrap_or_else(|e| e.into_inner()) = Some(
+                Outcomes { seq, rest, bound, next: 0 }
+            );
+        }
+    });
+    let mut outcomes = OUTCOMES.lock().unwrap_or_else(|e| e.into_inner());
+    let outcomes = outcomes.as_mut()?;
+    let idx = outcomes.next;
+    outcomes.next += 1;
+    let (res, over) = if idx >= outcomes.bound {
+        (Outcome::Fatal, true)
+    }
+    else {
+        (outcomes.seq.get(idx).copied().unwrap_or(outcomes.rest), false)
+    };
+    if let Some(path) = std::env::var_os("ROUTINATOR_VERIF_RUN_LOG") {
+        if let Ok(mut file) = std::fs::OpenOptions::new()
+            .create(true).append(true).open(path)
+        {
+            let _ = writeln!(
+                file, "{} {:?}{}", idx + 1, res,
+                if over { " BOUND" } else { "" }
+            );
+        }
+    }
+    Some(res)
+}
+
+//------------ RTR setup failures ---------------------------------------------
+
+type BoolCallback = Arc<dyn Fn() -> bool + Send + Sync>;
+
+static FAIL_RTR: RwLock<Option<BoolCallback>> = RwLock::new(None);
+
+/// Installs or removes the callback deciding whether the setup of the
+/// next accepted RTR connection is made to fail.
+pub fn set_fail_rtr_setup(cb: Option<BoolCallback>) {
+    *FAIL_RTR.write().unwrap_or_else(|e| e.into_inner()) = cb;
+}
+
+/// Returns whether the setup of an accepted RTR connection should fail.
+pub fn fail_rtr_setup() -> bool {
+    let cb = FAIL_RTR.read().unwrap_or_else(|e| e.into_inner()).clone();
+    cb.map(|cb| cb()).unwrap_or(false)
+}
